@@ -152,9 +152,10 @@ def c05(ctx):
 def c15(ctx):
     q = ctx.quick()
     ctx.model("mc/MC_Flows.tla", "MC_Flows.cfg", workers=12)
-    ctx.sim("state", 200 if q else 4000, STATE, "MonState_C15.cfg", subcmd="state")
-    ctx.sim("loop", 200 if q else 4000, STATE, "MonState_C15.cfg", seed_off=2, nontrivial=has_genuine, extra_args=["--snap", "full"])
-    ctx.sim("fault", 100 if q else 1500, STATE, "MonState_C15.cfg", seed_off=3, nontrivial=has_fault, extra_args=["--snap", "full"])
+    CF = (STATE, "MonState_C15conf.cfg")
+    ctx.sim("state", 200 if q else 4000, STATE, "MonState_C15.cfg", subcmd="state", conf=CF)
+    ctx.sim("loop", 200 if q else 4000, STATE, "MonState_C15.cfg", seed_off=2, nontrivial=has_genuine, extra_args=["--snap", "full"], conf=CF)
+    ctx.sim("fault", 100 if q else 1500, STATE, "MonState_C15.cfg", seed_off=3, nontrivial=has_fault, extra_args=["--snap", "full"], conf=CF)
     ctx.write_evidence("model_checking", "model: MC_Flows - every sequence of registrations of every flow over the alphabet (dense ids, bound, agreement, monotone extension); "
                        "implementation: distinct plans / scenarios (ECMP branches, unknown hops, failed probes, first-ttl > 1, max-flows 1..64), registry and per-flow statistics compared after every round",
                        assumptions=LOOP_ASSUME + STATE_ASSUME)
